@@ -16,10 +16,13 @@ from common import zlit, qlit, lst, natlit, coq_bad_indices, parallel_coq_bad, C
 PROP = "C07"
 PROPERTY_FILE = "Properties/C07.v"
 GEN_DEPS = []
-RULE = ("path sets of 1-40 dyadic values k/8 in [0,8] (thorough: up to 300), payoff = vector of calls with 1-4 dyadic strikes "
-        "(scalar and vector form), notional and df dyadic, 0-3 controls (forward, x^2/8, call struck 3+j) with prices given as "
-        "scalars (d = 1) or per-component arrays, prices either arbitrary or equal to the controls' sample means; "
-        "non-trivial = at least 3 paths and (d >= 2 or at least one control)")
+RULE = ("items generated from the seed; 3 of 4 are one pricing on a fresh engine, 1 of 4 is a SEQUENCE of 2-4 pricings on ONE Engine "
+        "instance (configuration.mc_paths lowered / raised / equal between pricings, same or another product, payoff dimension "
+        "changed when there are no controls). path sets of 1-40 dyadic values k/8 in [0,8] (thorough: up to 300), payoff = vector of "
+        "calls with 1-4 dyadic strikes (scalar and vector form), notional and df dyadic, 0-3 controls drawn from {forward, x^2/8, "
+        "call, PUT} with notionals in {1, 2, 1/2, -1, -1/2} (call+put pairs forced half of the time, so Sigma_X has negative "
+        "entries in ~45% of the multi-control runs), prices scalars (d = 1) or per-component arrays, arbitrary or equal to the "
+        "controls' sample means; non-trivial = at least 3 paths and (d >= 2 or a control), or any re-pricing on a used engine")
 MODELLED = ["standard Engine.price single-process loop, MCPath.process/discount, Product.__call__, MCStatistics.price/mc_stddev, "
             "tools.mean/stddev/mc_stddev, ControlVariates.helper_compute_coefficients/compute_coefficients: hand model "
             "Model/McStats.v tied by vm_compute correspondence",
@@ -35,14 +38,17 @@ THEOREM_NOTES = {
     "C07_cv_variance": "conditional on b solving the normal equations (the specification of inv(Sigma_X) @ Sigma_XY); variance is the biased "
                        "sample variance np.cov(bias=True) the code uses (same inequality for the unbiased one: common factor n/(n-1))",
     "C07_cv_bstar_solves_normal_equations": "closed-form b* for 1 and 2 controls only; 3+ controls are covered by the implementation oracle",
-    "threshold": "min|Sigma_X| < 1e-12 -> b = 0 is modelled as written (also fires for two uncorrelated controls); then adj = Y (C07_cv_fallback_is_raw)",
+    "C07_repricing_uses_own_paths": "state machine over pricings on one engine: Engine.initialisation allocates a new MCStatistics per pricing, so the "
+                                    "previous statistics never enter; tied by replaying pricing sequences (N then M<N, M>N, M=N) on one Engine instance",
+    "threshold": "min|Sigma_X| < 1e-12 -> b = 0 is modelled as written (Qabs of every entry, b_star in Model/McStats.v), so a changed guard breaks the "
+                 "vm_compute correspondence of the adjusted rows; the oracle separately flags 'b = 0 although Sigma_X is well conditioned'. The guard (also fires for two uncorrelated controls); then adj = Y (C07_cv_fallback_is_raw)",
 }
-LEVEL_TEXT = ("Proof: 6 Coq theorems (closed under the global context): for every path function, payoff, df, notional, size and np.empty "
+LEVEL_TEXT = ("Proof: 7 Coq theorems (closed under the global context): for every path function, payoff, df, notional, size and np.empty "
               "content the engine loop stores df*notional*payoff(path_i) for each path exactly once and price() is df*notional*mean per "
-              "component; mc_stddev()^2 is the unbiased variance of each component divided by the number of paths; for every coefficient "
+              "component; every pricing of a sequence on one engine holds exactly its own paths; mc_stddev()^2 is the unbiased variance of each component divided by the number of paths; for every coefficient "
               "vector b the control-variate mean is mean Y - b.(mean X - price); for any number of controls, if b solves the normal "
               "equations then var(adj) = var Y - var(b.X) <= var Y, and the one/two-control closed forms do solve them. Model tied to "
-              "/repo by vm_compute replay of ~400 scripted Engine.price runs (rows exact, statistics 1e-9, adjusted rows 1e-6).")
+              "/repo by vm_compute replay of ~630 scripted Engine.price pricings incl. ~100 multi-pricing sequences on one engine (rows exact, statistics 1e-9, adjusted rows 1e-6).")
 LEVEL_NOTE = ("Trusted: Coq kernel + vm_compute; hand model Model/McStats.v (correspondence, not translation); numpy mean/std/cov "
               "semantics; np.linalg.inv by specification; nb_of_processes = 1.")
 TECHNIQUE = "Coq proof (loop invariant, bilinearity of the sample covariance over Q) + vm_compute correspondence with a scripted process"
@@ -52,78 +58,142 @@ HEADER = ("From Coq Require Import ZArith QArith List Bool.\nFrom RV Require Imp
           "Definition tol : Q := 1 # 1000000000.\nDefinition tol6 : Q := 1 # 1000000.\n")
 
 
+CTRL_NOTIONALS = [1.0, 2.0, 0.5, -1.0, -0.5, 1.0]
+
+
+def gen_controls(rng, ncv):
+    """controls on the same underlying: forward, x^2/8, calls and PUTS (negative covariance with calls / the forward),
+    also held with NEGATIVE notionals"""
+    out = []
+    for k in range(ncv):
+        t = rng.choice(["fwd", "sq", "call", "put", "put", "call"])
+        out.append({"type": t, "K": rng.choice([2.0, 3.0, 4.0, 5.0]), "notional": rng.choice(CTRL_NOTIONALS)})
+    if ncv >= 2 and rng.random() < 0.5:      # make sure call + put pairs are frequent
+        out[0]["type"], out[1]["type"] = "call", "put"
+    return out
+
+
 def gen_spec(rng, tier):
     nmax = 40 if tier == "quick" else 300
     n = rng.choice([1, 1, 2, 2, 3, 4, 5, 7, 8, 11, 16, rng.randint(2, nmax), rng.randint(2, nmax)])
     d = rng.choice([1, 1, 1, 2, 2, 3, 4])
-    ncv = rng.choice([0, 0, 1, 1, 2, 2, 3])
+    ncv = rng.choice([0, 0, 1, 1, 2, 2, 2, 3, 3])
     return {"kind": "standard", "n": n, "d": d, "ncv": ncv, "vector_form": d > 1 or rng.random() < 0.3,
             "strikes": [rng.randrange(0, 40) / 8.0 for _ in range(d)],
             "paths": [rng.randrange(0, 65) / 8.0 for _ in range(n)],
             "df": rng.choice([1.0, 0.5, 0.25, 0.75]), "notional": rng.choice([1.0, 2.0, 0.5, 8.0]),
-            "cv_notionals": [rng.choice([1.0, 2.0, 0.5]) for _ in range(ncv)],
+            "controls": gen_controls(rng, ncv),
             "price_mode": rng.choice(["arbitrary", "arbitrary", "sample-mean"]),
             "scalar_prices": d == 1 and rng.random() < 0.6,
             "prices_raw": [[rng.randrange(0, 64) / 8.0 for _ in range(d)] for _ in range(ncv)]}
 
 
-def control_funs(d):
-    ones = np.ones(d)
+def gen_sequence(rng, tier):
+    """2-4 pricings on ONE engine: N then M<N, M>N, M=N; same or different product; the controls (engine
+    configuration) stay; the payoff dimension changes only without controls"""
+    first = gen_spec(rng, tier)
+    first["price_mode"] = "arbitrary"
+    first["n"] = rng.choice([3, 5, 8, 13, 20])
+    first["paths"] = [rng.randrange(0, 65) / 8.0 for _ in range(first["n"])]
+    seq = [first]
+    for _ in range(rng.choice([1, 2, 2, 3])):
+        prev = seq[-1]
+        s = dict(prev)
+        how = rng.choice(["fewer", "fewer", "more", "equal"])
+        s["n"] = {"fewer": max(1, prev["n"] - rng.randint(1, prev["n"])), "more": prev["n"] + rng.randint(1, 9), "equal": prev["n"]}[how]
+        s["paths"] = [rng.randrange(0, 65) / 8.0 for _ in range(s["n"])]
+        if rng.random() < 0.5:               # another product
+            if first["ncv"] == 0 and rng.random() < 0.4:
+                s["d"] = rng.choice([1, 2, 3])
+                s["vector_form"] = s["d"] > 1 or rng.random() < 0.3
+            s["strikes"] = [rng.randrange(0, 40) / 8.0 for _ in range(s["d"])]
+            s["notional"] = rng.choice([1.0, 2.0, 0.5, 8.0])
+        s["seq_step"] = how
+        seq.append(s)
+    return seq
 
-    def f0(x):
-        return x * ones if d > 1 else x
 
-    def f1(x):
-        return (x * x / 8.0) * ones if d > 1 else x * x / 8.0
+def control_fun(c, d):
+    t, K, idx = c["type"], c["K"], np.arange(d)
 
-    def f2(x):
-        return np.maximum(x - 3.0 - np.arange(d), 0.0) if d > 1 else max(x - 3.0, 0.0)
-    return [f0, f1, f2]
+    def f(x):
+        if t == "fwd":
+            v = x * np.ones(d)
+        elif t == "sq":
+            v = (x * x / 8.0) * np.ones(d)
+        elif t == "call":
+            v = np.maximum(x - K - idx, 0.0)
+        else:
+            v = np.maximum(K + idx - x, 0.0)
+        return v if d > 1 else float(v[0])
+    return f
 
 
-def control_exact(k, x: Fraction, j):
-    return [x, x * x / 8, max(x - 3 - j, Fraction(0))][k]
+def control_exact(c, x: Fraction, j):
+    t, K = c["type"], Fraction(c["K"])
+    if t == "fwd":
+        return x
+    if t == "sq":
+        return x * x / 8
+    if t == "call":
+        return max(x - K - j, Fraction(0))
+    return max(K + j - x, Fraction(0))
+
+
+def run_sequence(specs):
+    """prices every spec of the list, in order, on ONE Engine instance / ONE process (engine-level fields -- df,
+    controls, prices -- are those of the first spec); returns one obs per pricing, taken right after it"""
+    from mcscript import ScriptedProcess, make_product, make_control_variates, WarningCatcher
+    from rpylib.montecarlo.standard.engine import Engine
+    from rpylib.montecarlo.configuration import ConfigurationStandard
+    first = specs[0]
+    ncv, d0 = first["ncv"], first["d"]
+    df = Fraction(first["df"])
+
+    def exact_controls(spec):
+        return [[[df * Fraction(c["notional"]) * control_exact(c, Fraction(x), j) for c in first["controls"]] for x in spec["paths"]]
+                for j in range(spec["d"])]     # [component][path][control]
+    cv = None
+    if ncv:
+        if first["price_mode"] == "sample-mean":
+            xe = exact_controls(first)
+            pr = [[float(sum(xe[j][i][k] for i in range(first["n"])) / first["n"]) for j in range(d0)] for k in range(ncv)]
+        else:
+            pr = first["prices_raw"]
+        prices = [p[0] for p in pr] if first["scalar_prices"] else [np.array(p) for p in pr]
+        cv = make_control_variates([control_fun(c, d0) for c in first["controls"]], prices,
+                                   notionals=[c["notional"] for c in first["controls"]])
+    proc = ScriptedProcess([x for s in specs for x in s["paths"]], df=first["df"], dimension=1)
+    eng = Engine(ConfigurationStandard(mc_paths=first["n"], nb_of_processes=1, seed=7, control_variates=cv), proc)
+    out = []
+    for spec in specs:
+        if ncv:
+            spec["prices_used"] = pr
+        strikes = np.array(spec["strikes"])
+        if spec["vector_form"]:
+            fun = lambda x, strikes=strikes: np.maximum(x - strikes, 0.0)      # noqa
+        else:
+            fun = lambda x, k=spec["strikes"][0]: max(x - k, 0.0)              # noqa
+        product = make_product(notional=spec["notional"], dimension=spec["d"], fun=fun)
+        eng.configuration.mc_paths = spec["n"]
+        before = proc.calls
+        with WarningCatcher(), np.errstate(all="ignore"), warnings.catch_warnings():
+            warnings.simplefilter("ignore")
+            st = eng.price(product)
+            obs = {"calls": proc.calls - before, "rows": np.array(st._payoff_statistics.stats),
+                   "price_raw": np.atleast_1d(st.price(no_control_variates=True)).astype(float),
+                   "err_raw": np.atleast_1d(st.mc_stddev(no_control_variates=True)).astype(float),
+                   "price": np.atleast_1d(st.price()).astype(float), "err": np.atleast_1d(st.mc_stddev()).astype(float)}
+            if ncv:
+                obs["X"] = np.array(st._control_variates_statistics.stats)          # (n, ncv, d)
+                obs["adj"] = np.array(st._payoff_statistics_with_cv.stats)          # (n, d)
+        obs["xs_exact"] = exact_controls(spec)
+        out.append(obs)
+    return out
 
 
 def run(spec):
-    from mcscript import ScriptedProcess, make_product, make_control_variates
-    from rpylib.montecarlo.standard.engine import Engine
-    from rpylib.montecarlo.configuration import ConfigurationStandard
-    n, d, ncv = spec["n"], spec["d"], spec["ncv"]
-    strikes = np.array(spec["strikes"])
-    if spec["vector_form"]:
-        fun = lambda x: np.maximum(x - strikes, 0.0)      # noqa
-    else:
-        fun = lambda x: max(x - spec["strikes"][0], 0.0)  # noqa
-    df, no = Fraction(spec["df"]), Fraction(spec["notional"])
-    xs_exact = [[[df * Fraction(spec["cv_notionals"][k]) * control_exact(k, Fraction(x), j) for k in range(ncv)] for x in spec["paths"]]
-                for j in range(d)]     # [component][path][control]
-    prices = None
-    cv = None
-    if ncv:
-        if spec["price_mode"] == "sample-mean":
-            pr = [[float(sum(xs_exact[j][i][k] for i in range(n)) / n) for j in range(d)] for k in range(ncv)]
-        else:
-            pr = spec["prices_raw"]
-        prices = [p[0] for p in pr] if spec["scalar_prices"] else [np.array(p) for p in pr]
-        spec["prices_used"] = pr
-        cv = make_control_variates(control_funs(d)[:ncv], prices, notionals=spec["cv_notionals"])
-    proc = ScriptedProcess(spec["paths"], df=spec["df"], dimension=1)
-    eng = Engine(ConfigurationStandard(mc_paths=n, nb_of_processes=1, seed=7, control_variates=cv), proc)
-    product = make_product(notional=spec["notional"], dimension=d, fun=fun)
-    from mcscript import WarningCatcher
-    with WarningCatcher(), np.errstate(all="ignore"), warnings.catch_warnings():
-        warnings.simplefilter("ignore")
-        st = eng.price(product)
-        obs = {"calls": proc.calls, "rows": np.array(st._payoff_statistics.stats),
-               "price_raw": np.atleast_1d(st.price(no_control_variates=True)).astype(float),
-               "err_raw": np.atleast_1d(st.mc_stddev(no_control_variates=True)).astype(float),
-               "price": np.atleast_1d(st.price()).astype(float), "err": np.atleast_1d(st.mc_stddev()).astype(float)}
-        if ncv:
-            obs["X"] = np.array(st._control_variates_statistics.stats)          # (n, ncv, d)
-            obs["adj"] = np.array(st._payoff_statistics_with_cv.stats)          # (n, d)
-    obs["xs_exact"] = xs_exact
-    return obs
+    return run_sequence([spec])[0]
 
 
 def _mean(v):
@@ -176,7 +246,13 @@ def oracle(spec, obs):
     rows = obs["rows"]
     got = [[Fraction(float(v)) for v in r] for r in rows]
     if obs["calls"] != n or len(got) != n:
-        out.append(("the engine did not simulate / store exactly the configured number of paths", {"simulated": obs["calls"], "stored": len(got)}))
+        stale = obs["calls"] == n and len(got) > n and got[:n] == want
+        out.append(("the statistics of this pricing hold more rows than the configured number of paths: rows of an earlier pricing on the "
+                    "same engine are averaged into price() and mc_stddev()" if stale else
+                    "the engine did not simulate / store exactly the configured number of paths",
+                    {"configured_paths": n, "simulated": obs["calls"], "rows_in_statistics": len(got),
+                     "reported_price": [float(v) for v in obs["price_raw"]],
+                     "price_of_own_paths": [float(_mean([want[i][j] for i in range(n)])) for j in range(d)]}))
     elif got != want:
         i = next(i for i in range(n) if got[i] != want[i])
         out.append(("a stored payoff row is not df * notional * payoff(path_i)", {"row": i, "stored": [float(v) for v in got[i]], "expected": [float(v) for v in want[i]]}))
@@ -194,7 +270,7 @@ def oracle(spec, obs):
                 if d >= 2 and _close(rep * rep * d, e2):
                     det["finding"] = "F-C07-1"
                 out.append(("mc_stddev() is not the unbiased sample standard deviation / sqrt(number of paths), per component", det))
-    if ncv:
+    if ncv and len(got) == n:
         X, adj = obs["X"], obs["adj"]
         pr = spec["prices_used"]
         spec["_cv_checked"] = 0
@@ -206,6 +282,8 @@ def oracle(spec, obs):
             xcols = [[xs[i][k] for i in range(n)] for k in range(ncv)]
             S = [[_cov(xcols[a], xcols[b]) for b in range(ncv)] for a in range(ncv)]
             sxy = [_cov(xcols[a], cols[j]) for a in range(ncv)]
+            spec.setdefault("_sigma_neg", 0)
+            spec["_sigma_neg"] += any(v < 0 for r in S for v in r)
             if min(abs(v) for r in S for v in r) < Fraction(1, 10 ** 12):
                 b = [Fraction(0)] * ncv
             else:
@@ -221,6 +299,13 @@ def oracle(spec, obs):
             want_adj = [cols[j][i] - sum(b[k] * (xs[i][k] - p[k]) for k in range(ncv)) for i in range(n)]
             spec["_cv_checked"] += 1
             tol6 = Fraction(1, 10 ** 6)
+            moved = any(b[k] != 0 and xs[i][k] != p[k] for i in range(n) for k in range(ncv))
+            if moved and any(v != 0 for v in b) and all(float(adj[i, j]) == float(rows[i, j]) for i in range(n)) \
+                    and any(not _close(adj[i, j], want_adj[i], tol6) for i in range(n)):
+                out.append(("control variates dropped (b* = 0, adjusted sample = raw sample) although min|Sigma_X| >= 1e-12 and Sigma_X is well conditioned",
+                            {"component": j, "Sigma_X": [[float(v) for v in r] for r in S], "b_star_expected": [float(v) for v in b],
+                             "reported_price": float(obs["price"][j]), "expected_price": float(_mean(want_adj)), "raw_mean": float(_mean(cols[j]))}))
+                continue
             if any(not _close(adj[i, j], want_adj[i], tol6) for i in range(n)):
                 out.append(("control-variate adjusted sample is not Y - b*(X - price_X) with b* the sample regression coefficient",
                             {"component": j, "stored": [float(v) for v in adj[:, j]][:8], "expected": [float(v) for v in want_adj][:8],
@@ -244,38 +329,57 @@ def _payload(spec, **det):
     return p
 
 
+def _seq_payload(specs, k, **det):
+    p = {"kind": "sequence", "sequence": [_payload(sp) for sp in specs], "index": k,
+         "note": "pricings 0..index are run in order on ONE Engine instance; the violation is in pricing `index`"}
+    p.update(det)
+    return p
+
+
+def _coq_case(spec, obs):
+    d = spec["d"]
+    erows = lst([lst([qlit(v) for v in r]) for r in obs["rows"]])
+    err2 = [float(e) ** 2 for e in obs["err_raw"]] if len(obs["err_raw"]) == d else [0.0] * d
+    return (f"({lst([qlit(k) for k in spec['strikes']])}, {lst([qlit(x) for x in spec['paths']])}, {qlit(spec['df'])}, "
+            f"{qlit(spec['notional'])}, {natlit(spec['n'])}, ({erows}, {lst([qlit(v) for v in obs['price_raw']])}, {lst([qlit(v) for v in err2])}))")
+
+
 def correspond(res):
     rng = random.Random(res.seed)
-    n_cases = 420 if res.tier == "quick" else 5000
+    n_items = 420 if res.tier == "quick" else 5000
     eng_cases, cv_cases = [], []
-    for i in range(n_cases):
-        spec = gen_spec(rng, res.tier)
-        obs = run(spec)
-        n, d, ncv = spec["n"], spec["d"], spec["ncv"]
-        res.count(("std", json.dumps(_payload(spec), sort_keys=True)), nontrivial=(n >= 3 and (d >= 2 or ncv >= 1)), kind=f"standard d={d} ncv={ncv}")
-        res.bump("n_paths", "1" if n == 1 else ("2-8" if n <= 8 else ">8"))
-        res.bump("price_mode", spec["price_mode"] if ncv else "no controls")
-        res.bump("prices_form", "none" if not ncv else ("scalars" if spec["scalar_prices"] else "arrays"))
-        for what, det in oracle(spec, obs):
-            res.violation(what, _payload(spec, **det))
-        res.bump("cv_components_checked", spec.get("_cv_checked", 0))
-        if spec.get("_cv_skipped"):
-            res.bump("cv_components_skipped_ill_conditioned", spec["_cv_skipped"])
-        erows = lst([lst([qlit(v) for v in r]) for r in obs["rows"]])
-        err2 = [float(e) ** 2 for e in obs["err_raw"]] if len(obs["err_raw"]) == d else [0.0] * d
-        eng_cases.append(f"({lst([qlit(k) for k in spec['strikes']])}, {lst([qlit(x) for x in spec['paths']])}, {qlit(spec['df'])}, "
-                         f"{qlit(spec['notional'])}, {natlit(n)}, {natlit(d)}, ({erows}, {lst([qlit(v) for v in obs['price_raw']])}, {lst([qlit(v) for v in err2])}))")
-        if ncv in (1, 2) and spec.get("_cv_checked", 0) == d and n >= 2:
-            for j in range(d):
-                xs = lst([lst([qlit(obs["X"][i2, k, j]) for k in range(ncv)]) for i2 in range(n)])
-                cv_cases.append(f"({natlit(ncv)}, {lst([qlit(spec['prices_used'][k][j]) for k in range(ncv)])}, {xs}, "
-                                f"{lst([qlit(v) for v in obs['rows'][:, j]])}, {lst([qlit(v) for v in obs['adj'][:, j]])})")
-    groups_ty = "list Q * list Q * Q * Q * nat * nat * (list (list Q) * list Q * list Q)"
-    chk = "fun c => match c with (ks, ps, df, no, n, d, e) => corr_std tol ks ps df no n d e end"
-    bad, nsh = parallel_coq_bad(PROP, "engine", HEADER, groups_ty, chk, eng_cases, shard=40 if res.tier == "quick" else 100, timeout=900, jobs=12)
+    for i in range(n_items):
+        specs = gen_sequence(rng, res.tier) if i % 4 == 3 else [gen_spec(rng, res.tier)]
+        observations = run_sequence(specs)
+        res.bump("pricings_on_one_engine", len(specs))
+        for k, (spec, obs) in enumerate(zip(specs, observations)):
+            n, d, ncv = spec["n"], spec["d"], spec["ncv"]
+            res.count(("std", k, json.dumps([_payload(sp) for sp in specs[:k + 1]], sort_keys=True)),
+                      nontrivial=(n >= 3 and (d >= 2 or ncv >= 1)) or k >= 1, kind=f"standard d={d} ncv={ncv}" + (" (re-pricing)" if k else ""))
+            res.bump("n_paths", "1" if n == 1 else ("2-8" if n <= 8 else ">8"))
+            if k:
+                res.bump("repricing_step", spec["seq_step"] + (", other product" if (spec["strikes"], spec["notional"], spec["d"]) !=
+                                                               (specs[k - 1]["strikes"], specs[k - 1]["notional"], specs[k - 1]["d"]) else ", same product"))
+            res.bump("price_mode", spec["price_mode"] if ncv else "no controls")
+            res.bump("prices_form", "none" if not ncv else ("scalars" if spec["scalar_prices"] else "arrays"))
+            for what, det in oracle(spec, obs):
+                res.violation(what, _seq_payload(specs[:k + 1], k, **det) if len(specs) > 1 else _payload(spec, **det))
+            res.bump("cv_components_checked", spec.get("_cv_checked", 0))
+            if ncv >= 2:
+                res.bump("Sigma_X_has_negative_entry", bool(spec.get("_sigma_neg")))
+            if spec.get("_cv_skipped"):
+                res.bump("cv_components_skipped_ill_conditioned", spec["_cv_skipped"])
+            if ncv in (1, 2) and spec.get("_cv_checked", 0) == d and n >= 2:
+                for j in range(d):
+                    xs = lst([lst([qlit(obs["X"][i2, c, j]) for c in range(ncv)]) for i2 in range(n)])
+                    cv_cases.append(f"({natlit(ncv)}, {lst([qlit(spec['prices_used'][c][j]) for c in range(ncv)])}, {xs}, "
+                                    f"{lst([qlit(v) for v in obs['rows'][:, j]])}, {lst([qlit(v) for v in obs['adj'][:, j]])})")
+        eng_cases.append(lst([_coq_case(sp, ob) for sp, ob in zip(specs, observations)]))
+    bad, nsh = parallel_coq_bad(PROP, "engine", HEADER, "list seq_case", "corr_seq tol", eng_cases,
+                                shard=40 if res.tier == "quick" else 100, timeout=900, jobs=12)
     res.case_lemmas += nsh
     if bad:
-        res.broke("correspondence engine", f"model and implementation differ on {len(bad)} runs, first: {eng_cases[bad[0]][:1500]}")
+        res.broke("correspondence engine", f"model and implementation differ on {len(bad)} pricing sequences, first: {eng_cases[bad[0]][:1500]}")
     else:
         res.case_ok += nsh
     ty = "nat * list Q * list (list Q) * list Q * list Q"
@@ -291,25 +395,34 @@ def correspond(res):
 
 def search(res):
     rng = random.Random(res.seed + 1)
-    for _ in range(3000):
-        spec = gen_spec(rng, "quick")
-        v = oracle(spec, run(spec))
-        if v:
-            res.violation(v[0][0], _payload(spec, **v[0][1]))
-            return
+    for i in range(3000):
+        specs = gen_sequence(rng, "quick") if i % 2 else [gen_spec(rng, "quick")]
+        for k, (spec, obs) in enumerate(zip(specs, run_sequence(specs))):
+            v = oracle(spec, obs)
+            if v:
+                res.violation(v[0][0], _seq_payload(specs[:k + 1], k, **v[0][1]) if len(specs) > 1 else _payload(spec, **v[0][1]))
+                return
+
+
+SPEC_KEYS = ("kind", "n", "d", "ncv", "vector_form", "strikes", "paths", "df", "notional", "controls", "price_mode", "scalar_prices",
+             "prices_raw", "seq_step")
 
 
 def replay(path):
     data = json.load(open(path))
     print(json.dumps(data, indent=1)[:3000])
-    if data.get("kind") != "standard":
+    if data.get("kind") == "standard":
+        specs = [{k: data[k] for k in SPEC_KEYS if k in data}]
+    elif data.get("kind") == "sequence":
+        specs = [{k: sp[k] for k in SPEC_KEYS if k in sp} for sp in data["sequence"]]
+    else:
         print("replay: re-run ./check C07")
         return 1
-    spec = {k: data[k] for k in ("kind", "n", "d", "ncv", "vector_form", "strikes", "paths", "df", "notional", "cv_notionals",
-                                 "price_mode", "scalar_prices", "prices_raw")}
-    obs = run(spec)
-    print("price()", obs["price"], "raw", obs["price_raw"], "mc_stddev()", obs["err"], "raw", obs["err_raw"])
-    v = oracle(spec, obs)
-    for what, det in v:
-        print("VIOLATED:", what, det)
-    return 1 if v else 0
+    rc = 0
+    for k, (spec, obs) in enumerate(zip(specs, run_sequence(specs))):
+        print(f"pricing {k}: configured paths {spec['n']}, rows in statistics {len(obs['rows'])}, price() {obs['price']}, raw {obs['price_raw']}, "
+              f"mc_stddev() {obs['err']}")
+        for what, det in oracle(spec, obs):
+            print("VIOLATED:", what, det)
+            rc = 1
+    return rc
